@@ -336,7 +336,23 @@ def local_defs(fnode):
                 if isinstance(n, ast.Name) and isinstance(n.ctx, (ast.Store, ast.Del)):
                     in_loop.add(n.id)
 
-    def ok_value(v, at=0):
+    loop_targets_at = {}
+    for lp in ast.walk(fnode):
+        if isinstance(lp, ast.For):
+            tn = {t.id for t in ast.walk(lp.target) if isinstance(t, ast.Name)}
+            for n in ast.walk(lp):
+                if isinstance(n, ast.Assign):
+                    loop_targets_at.setdefault(id(n), set()).update(tn)
+
+    def ok_value(v, at=0, node=None):
+        # loop variables of a loop that encloses the definition are stable for the rest of that iteration
+        lt = loop_targets_at.get(id(node), set()) if node is not None else set()
+        return all(x.id in lt or _ok_name(x, at) for x in ast.walk(v) if isinstance(x, ast.Name) and isinstance(x.ctx, ast.Load))
+
+    def _ok_name(x, at):
+        return stores.get(x.id, 0) == 0 or (stores.get(x.id, 0) == 1 and x.id in out) or (x.id not in in_loop and last_store.get(x.id, 0) < at)
+
+    def _unused_ok_value(v, at=0):
         # a name read by the definition is stable afterwards: never stored, a single-store local already accepted, or every
         # store of it lies before the definition (and outside loops)
         return all(stores.get(x.id, 0) == 0 or (stores.get(x.id, 0) == 1 and x.id in out) or (x.id not in in_loop and last_store.get(x.id, 0) < at)
@@ -351,7 +367,7 @@ def local_defs(fnode):
         elif isinstance(t, ast.Tuple) and isinstance(v, ast.Tuple) and len(t.elts) == len(v.elts) and all(isinstance(x, ast.Name) for x in t.elts):
             pairs = list(zip(t.elts, v.elts))
         for x, y in pairs:
-            if stores.get(x.id) == 1 and x.id not in params and ok_value(y, getattr(n, 'lineno', 0)):
+            if stores.get(x.id) == 1 and x.id not in params and ok_value(y, getattr(n, 'lineno', 0), n):
                 out[x.id] = y
     return out
 
